@@ -4,6 +4,7 @@
 use crate::model::*;
 use crate::refcbor;
 use crate::rng::Rng;
+use coset::iana::{self, EnumI64};
 use std::sync::OnceLock;
 
 pub fn pat(len: usize, salt: u8) -> Vec<u8> {
@@ -289,3 +290,24 @@ pub fn check_palettes() -> Result<(), String> {
     }
     Ok(())
 }
+
+/// Every value of a registry in [-70000, 70000], found by scanning `from_i64` once.
+pub fn registry<T: EnumI64>(cell: &'static std::sync::OnceLock<Vec<i64>>) -> &'static [i64] {
+    cell.get_or_init(|| (-70_000i64..=70_000).filter(|i| T::from_i64(*i).is_some()).collect())
+}
+macro_rules! reg_list {
+    ($name:ident, $t:ty) => {
+        pub fn $name() -> &'static [i64] {
+            static C: std::sync::OnceLock<Vec<i64>> = std::sync::OnceLock::new();
+            registry::<$t>(&C)
+        }
+    };
+}
+reg_list!(all_algs, iana::Algorithm);
+reg_list!(all_header_params, iana::HeaderParameter);
+reg_list!(all_content_formats, iana::CoapContentFormat);
+reg_list!(all_key_types, iana::KeyType);
+reg_list!(all_key_ops, iana::KeyOperation);
+reg_list!(all_curves, iana::EllipticCurve);
+reg_list!(all_claim_names, iana::CwtClaimName);
+
